@@ -50,9 +50,12 @@ CHECKS = {
     },
     "C13": {
         "extra_props": ["Props/MapFut_D.v", "Props/C13_src.v"],
-        "modules": ["p_c13"],
+        "modules": ["p_c13", "p_c13x"],
         "gen_lemmas": [],
-        "rule": "seeded scenarios: 1-3 MapFuture/FlatMapFuture objects built directly over 2-5 environment futures (shared delegates "
+        "rule": "p_c13x: linear chains of 1-3 map / flat_map stages (f_* form or executor form) over one input that is a plain future or an f_proxy / f_nocancel / f_map of it, "
+                "fn / error_fn scripted per stage (return, raise, re-raise the same, return a done / failed / pending future, return a non-future), optional cancel of the output from "
+                "another thread; monitor only: output = the sequential meaning of the chain with exception identity, call counts, cancel-True-means-cancelled, no deadlock; "
+                "p_c13: seeded scenarios: 1-3 MapFuture/FlatMapFuture objects built directly over 2-5 environment futures (shared delegates "
                 "allowed; delegates already done, finishing later with value/exception from 1-2 environment threads, cancelled, or never), "
                 "fn/error_fn answers scripted (return, raise new, re-raise same, return a future in any state, return a non-future), "
                 "done-callbacks before/after completion, 0-2 cancel() calls; x {random, sticky, PCT} schedules; each history replayed on "
